@@ -154,20 +154,53 @@ def fresh(gen, used: set) -> str:
     raise RuntimeError("name space exhausted")
 
 
+def prefix_shapes(rng: random.Random, name: str) -> List[str]:
+    """Name prefixes that share their leading characters with the Pascal name they will prefix
+    (`Link` -> L_, Li_, Link_, LI_, LINK_, li_, Lkni_, My_Li_, Li, Link, ... ): upper-case,
+    Capitalised, lower-case and mixed words, ending with and without "_", equal to a prefix of
+    the name, equal to the name, containing every letter of the name."""
+    k = rng.randrange(1, len(name) + 1)
+    head = name[:k]
+    rest = list(name[1:])
+    rng.shuffle(rest)
+    perm = name[0] + "".join(rest).lower()
+    other = rng.choice(WORDS)
+    shapes = [
+        head + "_", name + "_", name[0] + "_",                 # Capitalised, closed
+        head.upper() + "_", name.upper() + "_",               # CAPITALS, closed
+        head.lower() + "_",                                   # small letters, closed
+        perm + "_", perm + rng.choice("bdqz") + "_",          # every letter of the name
+        other.capitalize() + "_" + head + "_", other + "_" + name + "_", head.upper() + "_" + other + "_",
+        (head if len(head) > 1 else name[:2]), name, other + "_" + name[:2],   # open (no final "_")
+        head.lower() if len(head) > 1 else name[:2].lower(),
+        name[:2].upper(), name[0],                            # open, ambiguous: model tie only
+        other + name[:2] + "_",                               # camelCase word: model tie only
+    ]
+    return shapes
+
+
 class SchemaGen:
-    def __init__(self, rng: random.Random, known: bool = False, odd_prefix: bool = False):
+    def __init__(self, rng: random.Random, known: bool = False, odd_prefix: bool = False,
+                 stream: Optional[str] = None):
         self.rng = rng
+        known = known or stream == "known"
         self.ng = NameGen(rng, known)
         self.known = known
-        self.odd_prefix = odd_prefix
+        self.stream = stream or ("known" if known else "odd-prefix" if odd_prefix else "main")
+        self.odd_prefix = self.stream == "odd-prefix"
         self.global_used: set = set()
+        self.preferred: List[str] = []       # Pascal names to hand out first (collide stream)
 
     # ---- structure ------------------------------------------------------------------------
-    def proto(self, depth: int, imports: List[Tuple[Optional[str], Proto]], main: bool) -> Proto:
+    def proto(self, depth: int, imports: List[Tuple[Optional[str], Proto]], main: bool,
+              name: Optional[str] = None, base: Optional[str] = None) -> Proto:
         r = self.rng
-        name = fresh(self.ng.snake if not self.known else NameGen(r, False).snake, self.global_used)
-        base = name
-        if main:
+        forced = name is not None
+        if name is None:
+            name = fresh(self.ng.snake if not self.known else NameGen(r, False).snake, self.global_used)
+        if base is None:
+            base = name
+        if main and not forced:
             k = r.random()
             if k < 0.25:
                 base = name + "_v2"
@@ -183,8 +216,14 @@ class SchemaGen:
         ndecl = r.randrange(2, 6) if main else r.randrange(2, 4)
         kinds = ["message"] + [r.choice(["const", "alias", "enum", "message", "message"]) for _ in range(ndecl)]
         r.shuffle(kinds)
+        if self.stream == "prefix-shapes":
+            kinds[kinds.index("message")] = "message!"     # one message with nested definitions 2-3 deep
         for k in kinds:
             p.decls.append(self.decl(p, k, [], used, depth))
+        if self.stream == "prefix-shapes":
+            host = [d for d in p.decls if d.kind == "message" and d.nested]
+            target = r.choice(host) if host else r.choice([d for d in p.decls if d.kind == "message"])
+            p.prefix = r.choice(prefix_shapes(r, target.name))
         return p
 
     def visible_types(self, p: Proto, encl_defs: List[Def]) -> List[Tuple[Def, Optional[str], str]]:
@@ -238,6 +277,11 @@ class SchemaGen:
             return TRef("array", elem=et, cap=cap), f"{src}[{cap}]"
         return self.single(p, encl_defs, as_element=False)
 
+    def pascal_name(self) -> str:
+        if self.preferred:
+            return self.preferred.pop(0)
+        return self.ng.pascal()
+
     def decl(self, p: Proto, kind: str, encl_defs: List[Def], used: set, depth: int) -> Def:
         r = self.rng
         encl = [e.name for e in encl_defs]
@@ -246,20 +290,23 @@ class SchemaGen:
             d.value = r.choice(["7", "yes", '"abc"', "0x10"])
             return d
         if kind == "alias":
-            d = Def("alias", fresh(self.ng.pascal, used), p, encl)
+            d = Def("alias", fresh(self.pascal_name, used), p, encl)
             t, src = self.tref(p, encl_defs, alias_target=True)
             d.value = (t, src)
             return d
         if kind == "enum":
-            d = Def("enum", fresh(self.ng.pascal, used), p, encl)
+            d = Def("enum", fresh(self.pascal_name, used), p, encl)
             mused = self.global_used      # enum members share the proto-wide C namespace; keep distinct
             d.value = [fresh(self.ng.upper, mused) for _ in range(r.randrange(1, 4))]
             return d
-        d = Def("message", fresh(self.ng.pascal, used), p, encl)
+        force = kind == "message!"
+        d = Def("message", fresh(self.pascal_name, used), p, encl)
         inner_used: set = set()
         if depth > 0:
-            for _ in range(r.choice([0, 0, 1, 1, 2])):
-                k = r.choice(["enum", "message", "message"])
+            inner = [r.choice(["enum", "message", "message"]) for _ in range(r.choice([0, 0, 1, 1, 2]))]
+            if force:
+                inner = ["enum", "message!" if depth > 1 else "message"] + inner[:1]
+            for k in inner:
                 d.nested.append(self.decl(p, k, encl_defs + [d], inner_used, depth - 1))
         fused: set = set()
         nums = r.sample(range(1, 30), r.randrange(1, 5))
@@ -268,8 +315,78 @@ class SchemaGen:
             d.fields.append((fresh(self.ng.snake, fused), num, t, src))
         return d
 
+    def colliding_imports(self) -> Tuple[List[Tuple[Optional[str], Proto]], Optional[str]]:
+        """2-3 imports whose `as` names, proto names and file base names are drawn from one small
+        pool, so that they collide pairwise in every combination the language allows: the keys
+        under which the imports are registered (`as` name, else proto name) and the file base
+        names must be distinct, everything else may coincide (an `as` name equal to another
+        file's proto name or base name, two files declaring the same proto name, a proto name
+        equal to another file's base name, the main proto named like one of them).  The imported
+        protos define types of the same names."""
+        r = self.rng
+        clean = NameGen(r, False)
+        pool = []
+        while len(pool) < 3:
+            w = clean.snake()
+            if w not in pool and w not in KEYWORDS:
+                pool.append(w)
+        n = r.choice([2, 2, 3])
+        consistent = r.random() < 0.5      # every file declares the proto its base name says
+        for _ in range(200):
+            if consistent:
+                bases = r.sample(pool, n)
+                names = list(bases)
+            else:
+                bases = r.sample(pool + [pool[0] + "_x", pool[1] + "_x"], n)
+                names = [r.choice(pool) for _ in range(n)]
+            aliases = [r.choice(pool + ["bb", None, None]) for _ in range(n)]
+            keys = [a or nm for a, nm in zip(aliases, names)]
+            if len(set(keys)) < n:
+                continue
+            cross = 0
+            for i in range(n):
+                for j in range(n):
+                    if i != j:
+                        cross += (aliases[i] is not None and aliases[i] in (names[j], bases[j]))
+                        cross += (names[i] == bases[j]) + (i < j and names[i] == names[j])
+            if cross >= 1 and any(a is not None for a in aliases):
+                break
+        else:
+            raise RuntimeError("no colliding import assignment found")
+        imports: List[Tuple[Optional[str], Proto]] = []
+        shared: List[str] = []
+        for i in range(n):
+            self.preferred = list(shared)
+            ip = self.proto(1, [], main=False, name=names[i], base=bases[i])
+            self.preferred = []
+            if not shared:
+                shared = [d.name for d in ip.decls if d.kind in ("alias", "enum", "message")]
+            imports.append((aliases[i], ip))
+        main_name = r.choice(pool + [None, None, None])
+        if main_name in [b for b in bases]:
+            main_name = None          # the main file needs its own base name
+        return imports, main_name
+
     def schema(self) -> "Schema":
         r = self.rng
+        if self.stream == "collide":
+            imports, main_name = self.colliding_imports()
+            main = self.proto(2, imports, main=True, name=main_name,
+                              base=(main_name + "_main") if main_name else None)
+            # make sure every import is referred to
+            used = set(d.name for d in main.decls)
+            host = Def("message", fresh(self.ng.pascal, used), main, [])
+            num = 1
+            for alias, ip in imports:
+                key = alias or ip.name
+                for d in ip.decls:
+                    if d.kind in ("alias", "enum", "message"):
+                        host.fields.append((fresh(self.ng.snake, set(f[0] for f in host.fields)), num,
+                                            TRef("named", target=d, via=key), f"{key}.{d.name}"))
+                        num += 1
+            if host.fields:
+                main.decls.append(host)
+            return Schema(main)
         imports: List[Tuple[Optional[str], Proto]] = []
         for _ in range(r.choice([0, 1, 1, 2])):
             ip = self.proto(1, [], main=False)
@@ -371,6 +488,10 @@ class Schema:
 
         for d in self.main.decls:
             walk(d)
+        # the import statements name the module after the PROTO name, the file after its base
+        # name (defect import-filename of C10)
+        if any(ip.name != ip.base for _, ip in self.main.imports):
+            return False
         return not bad[0]
 
     def all_names(self) -> List[Tuple[str, str]]:
